@@ -513,6 +513,7 @@ fn cli_exit_scan(rep: &Report) {
 
 pub fn run(rep: &'static Report) {
     rep.set_rule("E-GRAPH over programs: breadth-first search (stateright) over all programs of <= 4 (quick) / 5 (thorough) operations on 3 slots from {PrivateKey::try_from, PrivateKey::generate, PayloadKey::new (8-aligned box and odd address), clone, clone_from, drop, drop during panic unwinding, pass to noise_encrypt} with two key values (one containing zero bytes); every program is executed from scratch on the real containers (boxed, so the secret bytes always live in a heap block) under an allocator that copies the watched 32 bytes at the moment their block is deallocated. distinct non-trivial = programs that drop at least one instance");
+    rep.rule_add("live-heap search after key_encrypt / key_decrypt (3 lengths x payload supplied or not); LD_PRELOAD exit-time heap monitor over 8 CLI wirings; a labelled two-thread sampling pass.");
     rep.assume("copies left on the stack by moves and non-container temporaries are out of scope (the property is about the containers); erasure is observed as far as this build profile (release) performs it");
     let max_len = rep.tier.pick(4, 5);
     let ctx = Arc::new(PCtx { rep, seed: rep.seed, max_len, ops: all_ops(2), executed: AtomicU64::new(0), drops: AtomicU64::new(0), events: AtomicU64::new(0) });
